@@ -116,7 +116,10 @@ func (c *Ctx) verify() (err error) {
 	s.Old = s.snapshot()
 	// ghost variables
 	env0 := c.funcEnv(s, fr, true)
-	for _, gv := range c.Spec.GhostVars {
+	for _, gv := range append(append([]QVar{}, c.SS.GlobalGhosts...), c.Spec.GhostVars...) {
+		if _, dup := s.Ghost[gv.Name]; dup {
+			continue
+		}
 		_, sort := env0.resolveType(gv.Type)
 		name := s.freshConst("g_"+gv.Name, sort)
 		s.Ghost[gv.Name] = specTV(name, sort)
@@ -178,6 +181,10 @@ func (c *Ctx) funcEnv(s *State, fr *Frame, entry bool) *SpecEnv {
 	pkg := c.pkgOf(fn)
 	old := &SpecEnv{S: s, C: c, Heap: s.Old.Heap, Cells: s.Old.Cells, Vars: map[string]TV{}, Pkg: pkg, Ghost: s.Ghost}
 	env := &SpecEnv{S: s, C: c, Heap: s.Heap, Cells: s.Cells, Vars: map[string]TV{}, Pkg: pkg, Ghost: s.Ghost, Old: old}
+	if s.Old != nil {
+		env.Ghost0 = s.Old.Ghost
+		old.Ghost0 = s.Old.Ghost
+	}
 	top := fr
 	for top.Caller != nil {
 		top = top.Caller
@@ -1479,9 +1486,9 @@ func (s *State) execReturn(r *ssa.Return) ([]*State, bool) {
 	}
 	// top-level return: postconditions
 	c.Obls = append(c.Obls, &Obligation{Name: fmt.Sprintf("%s/reach@return:%s", c.Key, c.posOf(r.Pos())), Kind: "reach", Func: c.Key, Desc: "this return is reachable on at least one path (otherwise its postconditions hold vacuously)", Pos: c.posOf(r.Pos()), Path: s.Path, Goal: "false", ExpectSat: true, PathID: s.PathID})
-	s.runGhost(fr, "return")
 	env := c.funcEnv(s, fr, true)
 	sig := fr.Fn.Signature
+	resVars := map[string]TV{}
 	for i, v := range vals {
 		rt := sig.Results().At(i).Type()
 		var tv TV
@@ -1498,13 +1505,21 @@ func (s *State) execReturn(r *ssa.Return) ([]*State, bool) {
 		default:
 			tv = TV{T: s.term(r.Results[i]), Ty: rt, Sort: c.sortOf(rt)}
 		}
-		env.Vars[fmt.Sprintf("result%d", i)] = tv
+		resVars[fmt.Sprintf("result%d", i)] = tv
 		if n := sig.Results().At(i).Name(); n != "" && n != "_" {
-			env.Vars[n] = tv
+			resVars[n] = tv
 		}
 		if len(vals) == 1 {
-			env.Vars["result"] = tv
+			resVars["result"] = tv
 		}
+	}
+	// ghost statements anchored at the return see the returned values (result, result0, ...)
+	s.ghostExtra = resVars
+	s.runGhost(fr, "return")
+	s.ghostExtra = nil
+	env = c.funcEnv(s, fr, true)
+	for k, v := range resVars {
+		env.Vars[k] = v
 	}
 	s.checkFrame(env, c.posOf(r.Pos()))
 	for i, e := range c.Spec.Ensures {
@@ -1524,6 +1539,9 @@ func (s *State) runGhost(fr *Frame, anchor string) {
 			continue
 		}
 		env := c.funcEnv(s, fr, false)
+		for k, v := range s.ghostExtra {
+			env.Vars[k] = v
+		}
 		switch g.Kind {
 		case "assert":
 			t, err := env.evalBool(g.E)
